@@ -224,6 +224,18 @@ def absorb_independent(doc):
         after = _paths(dst)
         if before != after:
             return f'absorb(source, {kw}) shares nested port dictionaries with the source: later additions {sorted(after - before)} show through'
+    # a nested namespace that has NO ports yet is copied like any other: ports added later on either side stay on that side
+    for kw in ({}, {'exclude': ['c']}):
+        src = _build_ns({'a': {'x': None}, 'empty': {}, 'c': None})
+        dst = PortNamespace('dst')
+        dst.absorb(src, **kw)
+        if 'empty' not in dst:
+            return f'absorb(source, {kw}) dropped a nested namespace that has no ports'
+        dst['empty']['added_to_copy'] = InputPort('added_to_copy')
+        src['empty']['added_to_source'] = InputPort('added_to_source')
+        if 'added_to_copy' in src['empty'] or 'added_to_source' in dst['empty'] or dst['empty'].ports is src['empty'].ports:
+            return (f'absorb(source, {kw}): the exposed copy of a nested namespace without ports shares its port dictionary with the source '
+                    f'(source now holds {sorted(src["empty"].keys())}, copy {sorted(dst["empty"].keys())})')
         if 'a' in dst and dst['a'].ports is src['a'].ports:
             return f'absorb(source, {kw}): exposed namespace `a` shares its port dictionary with the source'
     # deep independence: no port object at any depth is shared, and overriding an attribute of a port on either side afterwards
@@ -694,6 +706,90 @@ def cleanups_once(doc):
                 if not proc._closed:
                     bad.append(f'{how}, cleanup {raising} raising: the process is not closed')
         return '; '.join(bad[:3]) or None
+
+    return _run(main())
+
+
+def lifecycle_programs(doc):
+    """bounded search: small programs whose steps end in each of the commands (plain value, Stop, UnsuccessfulResult, Kill with and
+    without a message, Continue, Wait + resume, an exception), with a listener attached: every state entered follows the documented
+    lifecycle graph from CREATED, the terminal state is the expected one and nothing is entered after it"""
+    import plumpy
+    LEGAL = {None: {'CREATED'}, 'CREATED': {'RUNNING', 'KILLED', 'EXCEPTED'},
+             'RUNNING': {'RUNNING', 'WAITING', 'FINISHED', 'KILLED', 'EXCEPTED'},
+             'WAITING': {'RUNNING', 'WAITING', 'FINISHED', 'KILLED', 'EXCEPTED'}}
+    programs = {
+        'value': (lambda self: 5, 'FINISHED'),
+        'none': (lambda self: None, 'FINISHED'),
+        'stop': (lambda self: plumpy.Stop(3, True), 'FINISHED'),
+        'unsuccessful': (lambda self: plumpy.UnsuccessfulResult(2), 'FINISHED'),
+        'kill-with-message': (lambda self: plumpy.Kill(plumpy.process_comms.MessageBuilder.kill('enough')), 'KILLED'),
+        'kill-without-message': (lambda self: plumpy.Kill(), 'KILLED'),
+        'continue-then-kill': (lambda self: plumpy.Continue(self.then_kill), 'KILLED'),
+        'continue-then-value': (lambda self: plumpy.Continue(self.then_value), 'FINISHED'),
+        'wait-then-value': (lambda self: plumpy.Wait(self.then_value), 'FINISHED'),
+        'wait-then-kill': (lambda self: plumpy.Wait(self.then_kill), 'KILLED'),
+        'raise': (lambda self: (_ for _ in ()).throw(ValueError('step failed')), 'EXCEPTED'),
+    }
+
+    class Listener(plumpy.ProcessListener):
+        def __init__(self):
+            super().__init__()
+            self.terminal = []
+
+        def on_process_finished(self, process, outputs):
+            self.terminal.append('finished')
+
+        def on_process_killed(self, process, msg):
+            self.terminal.append('killed')
+
+        def on_process_excepted(self, process, reason):
+            self.terminal.append('excepted')
+
+    async def main():
+        bad = []
+        for name, (body, want) in programs.items():
+            class Prog(plumpy.Process):
+                def __init__(self, *a, **k):
+                    self.entered = []
+                    super().__init__(*a, **k)
+
+                def on_entered(self, from_state):
+                    self.entered.append(self.state.name)
+                    super().on_entered(from_state)
+
+                def run(self):
+                    return body(self)
+
+                def then_kill(self, *args):
+                    return plumpy.Kill()
+
+                def then_value(self, *args):
+                    return 'done'
+            proc = Prog()
+            lst = Listener()
+            proc.add_process_listener(lst)
+            task = asyncio.ensure_future(proc.step_until_terminated())
+            await _settle(20)
+            if proc.state.name == 'WAITING':
+                proc.resume()
+                await _settle(30)
+            try:
+                await asyncio.wait_for(task, 5)
+            except Exception as e:  # noqa
+                bad.append(f'program {name}: stepping raised {type(e).__name__}: {e}')
+            trace = proc.entered
+            prev = None
+            for st in trace:
+                if st not in LEGAL.get(prev, set()):
+                    bad.append(f'program {name}: entered {" -> ".join(trace)}: {prev} -> {st} is not an edge of the lifecycle graph')
+                    break
+                prev = st
+            if proc.state.name != want or (trace and trace[-1] != want):
+                bad.append(f'program {name}: ended {proc.state.name} (entered {" -> ".join(trace)}); expected {want}')
+            if lst.terminal != [want.lower()]:
+                bad.append(f'program {name}: terminal notifications {lst.terminal}; expected exactly one: {want.lower()}')
+        return '; '.join(bad[:4]) or None
 
     return _run(main())
 
@@ -1772,6 +1868,47 @@ def bundle_roundtrip(doc):
                     bad.append(f'{where}: the process loaded through {cname} differs observably: {diff}')
             if len(bad) > 3:
                 break
+        # bundles a process takes OF ITSELF from inside its lifecycle hooks (where checkpoints are commonly taken): the state-entry
+        # hooks run when the old state has been left and the new one not yet entered
+        class HookSaver(Plain):
+            saved = []
+
+            def _snap(self, where):
+                type(self).saved.append((where, persistence.Bundle(self)))
+
+            def on_run(self):
+                super().on_run()
+                self._snap('on_run')
+
+            def on_wait(self, awaiting):
+                super().on_wait(awaiting)
+                self._snap('on_wait')
+
+            def on_finish(self, result, successful):
+                super().on_finish(result, successful)
+                self._snap('on_finish')
+
+            def on_entered(self, from_state):
+                super().on_entered(from_state)
+                self._snap('on_entered ' + self.state.name)
+        HookSaver.__qualname__ = HookSaver.__name__ = 'RTHookSaver'
+        HookSaver.__module__ = 'rprocs'
+        setattr(rprocs, 'RTHookSaver', HookSaver)
+        proc = HookSaver(inputs={'a': 1})
+        await drive(proc, 8)
+        for where, b1 in HookSaver.saved:
+            for cname, carry in {'copy': lambda b: copy.deepcopy(b), 'pickle': lambda b: pickle.loads(pickle.dumps(b)),
+                                 'yaml': lambda b: yaml.load(yaml.dump(b), Loader=yaml.Loader)}.items():
+                try:
+                    b2 = persistence.Bundle(carry(b1).unbundle())
+                except Exception as e:  # noqa
+                    bad.append(f'bundle taken in {where}: load/save after travelling as {cname} fails: {type(e).__name__}: {e}')
+                    continue
+                if norm(b1) != norm(b2):
+                    diff = [k for k in set(b1) | set(b2) if norm(b1).get(k) != norm(b2).get(k)]
+                    bad.append(f'bundle taken in {where}: save-load-save through {cname} changes the bundle at keys {diff}')
+        if not HookSaver.saved or proc.state.name != 'FINISHED':
+            bad.append(f'hook-saving process ended {proc.state.name} with {len(HookSaver.saved)} bundles')
         return '; '.join(bad[:4]) or None
 
     return _run(main())
@@ -2958,6 +3095,9 @@ def input_validation(doc):
             spec.input('lazy.x', valid_type=int, default=9)
             spec.input('lazy.must', valid_type=int)
             spec.input_namespace('dyn', valid_type=int, dynamic=True, required=False)
+            # a namespace created on the fly by its FIRST declared port, which is optional; a required port follows
+            spec.input('late.opt', valid_type=int, required=False)
+            spec.input('late.must', valid_type=int)
 
     MISSING = object()
 
@@ -2967,7 +3107,7 @@ def input_validation(doc):
             return False, None
         done = {}
         ok = True
-        allowed = {'req', 'opt', 'dflt', 'cdflt', 'kdflt', 'pdflt', 'mdflt', 'pos', 'ns', 'lazy', 'dyn'}
+        allowed = {'req', 'opt', 'dflt', 'cdflt', 'kdflt', 'pdflt', 'mdflt', 'pos', 'ns', 'lazy', 'dyn', 'late'}
         if set(inp) - allowed:
             ok = False
 
@@ -3002,6 +3142,15 @@ def input_validation(doc):
         leaf(ns_in, ns_out, 'a', int)
         leaf(ns_in, ns_out, 'b', int, default=3)
         done['ns'] = ns_out
+        late_in = inp.get('late', {})
+        if not isinstance(late_in, dict):
+            return False, None
+        late_out = {}
+        if set(late_in) - {'opt', 'must'}:
+            ok = False
+        leaf(late_in, late_out, 'opt', int, required=False)
+        leaf(late_in, late_out, 'must', int)
+        done['late'] = late_out
         if 'lazy' in inp:
             lz = inp['lazy']
             if not isinstance(lz, dict):
@@ -3029,7 +3178,7 @@ def input_validation(doc):
             return {k: plain(v) for k, v in x.items()}
         return x
 
-    base = {'req': 1, 'ns': {'a': 2}}
+    base = {'req': 1, 'ns': {'a': 2}, 'late': {'must': 4}}
     variants = [
         {}, {'req': 'one'}, {'req': None}, {'opt': 'text'}, {'opt': 5}, {'dflt': 8}, {'dflt': 'eight'}, {'cdflt': [9]}, {'cdflt': (9,)},
         {'pos': 3}, {'pos': -3}, {'pos': 0}, {'ns': {'a': 2, 'b': 4}}, {'ns': {'a': 'two'}}, {'ns': {}}, {'ns': {'a': 2, 'zzz': 1}},
@@ -3041,8 +3190,9 @@ def input_validation(doc):
         {'kdflt': [3]}, {'pdflt': 6}, {'mdflt': 'given'}, {'pdflt': 'six'},
         # falsy values that are not mappings, given for a namespace
         {'ns': []}, {'ns': 0}, {'ns': ''}, {'lazy': []}, {'dyn': 0}, {'dyn': ''}, {'ns': False},
+        {'late': {}}, {'late': {'opt': 1}}, {'late': {'opt': 1, 'must': 2}},
     ]
-    drops = [(), ('req',), ('ns',)]
+    drops = [(), ('req',), ('ns',), ('late',)]
 
     def main_sync():
         failures = []
